@@ -22,7 +22,7 @@ const (
 	KFirst = "first" // {{@first}}
 	KLast  = "last"  // {{@last}}
 	KBlock = "block" // S = block name, A = default content       {{#block "n"}}..{{/block}}
-	KImage = "image" // S = image name, on a line of its own      {{#image n}}
+	KImage = "image" // S = image name; alone on a line or inside a line of text  {{#image n}}
 )
 
 type Node struct {
@@ -68,6 +68,19 @@ type Case struct {
 	// templates of the chain (other ASTs under the same name) that Pre may load.
 	Pre []Load    `json:"pre,omitempty"`
 	Old []Version `json:"old,omitempty"`
+	// Further templates of the same family and the renders that precede the judged final one. Template indices:
+	// 0..n-1 the chain t0..t(n-1) (n = 1+len(Children)), n+j the sibling Sibs[j] (named s<j>), which extends the
+	// template with index P < n+j and redefines some blocks. Seq lists the templates that are rendered, in this
+	// order and on the same engine with the same data, BEFORE the last template of the chain is rendered; every one
+	// of these renders is judged against the reference text of the template rendered.
+	Sibs []Sib `json:"sibs,omitempty"`
+	Seq  []int `json:"seq,omitempty"`
+}
+
+// Sib is a derived template next to the chain: extends template index P and redefines the blocks Ov.
+type Sib struct {
+	P  int        `json:"p"`
+	Ov []Override `json:"ov,omitempty"`
 }
 
 // Load is one LoadTemplate call of the history: template index T of the chain; V = 0 its final source,
@@ -128,10 +141,112 @@ func serialise(ns []Node) string {
 
 func tplName(i int) string { return "t" + strconv.Itoa(i) }
 
+// ntpl: number of templates of the case (chain + valid siblings are counted by index, see Case.Sibs).
+func (c *Case) ntpl() int { return 1 + len(c.Children) + len(c.Sibs) }
+
+// name of template index k (chain: t<k>, sibling j: s<j>).
+func (c *Case) name(k int) string {
+	if n := 1 + len(c.Children); k >= n {
+		return "s" + strconv.Itoa(k-n)
+	}
+	return tplName(k)
+}
+
+// parent index of template k (-1: the base, or a malformed sibling entry).
+func (c *Case) parent(k int) int {
+	n := 1 + len(c.Children)
+	switch {
+	case k <= 0 || k >= c.ntpl():
+		return -1
+	case k < n:
+		return k - 1
+	}
+	if p := c.Sibs[k-n].P; p >= 0 && p < k {
+		return p
+	}
+	return -1
+}
+
+// okTpl: k names a template whose whole ancestry is well formed (a replay file may hold anything).
+func (c *Case) okTpl(k int) bool {
+	if k < 0 || k >= c.ntpl() {
+		return false
+	}
+	for k > 0 {
+		p := c.parent(k)
+		if p < 0 {
+			return false
+		}
+		k = p
+	}
+	return true
+}
+
+func (c *Case) overridesOf(k int) []Override {
+	n := 1 + len(c.Children)
+	switch {
+	case k <= 0 || k >= c.ntpl():
+		return nil
+	case k < n:
+		return c.Children[k-1]
+	}
+	return c.Sibs[k-n].Ov
+}
+
+// path: the override sets on the way from the base (exclusive) down to template k, base side first.
+func (c *Case) path(k int) [][]Override {
+	var rev [][]Override
+	for k > 0 && k < c.ntpl() {
+		rev = append(rev, c.overridesOf(k))
+		k = c.parent(k)
+	}
+	out := make([][]Override, 0, len(rev))
+	for i := len(rev) - 1; i >= 0; i-- {
+		out = append(out, rev[i])
+	}
+	return out
+}
+
+// renderList: the templates rendered, in order; the last entry is always the last template of the chain.
+func (c *Case) renderList() []int {
+	var out []int
+	for _, k := range c.Seq {
+		if c.okTpl(k) {
+			out = append(out, k)
+		}
+	}
+	return append(out, len(c.Children))
+}
+
+// maxRenderDepth: the largest number of templates on the inheritance path of a rendered template.
+func (c *Case) maxRenderDepth() int {
+	d := 1
+	for _, k := range c.renderList() {
+		if n := 1 + len(c.path(k)); n > d {
+			d = n
+		}
+	}
+	return d
+}
+
+// sibSources: the texts of the sibling templates (index order); "" for a malformed entry.
+func (c *Case) sibSources() []string {
+	n := 1 + len(c.Children)
+	out := make([]string, len(c.Sibs))
+	for j, s := range c.Sibs {
+		if c.okTpl(n + j) {
+			out[j] = extendsSource(c.name(s.P), s.Ov)
+		}
+	}
+	return out
+}
+
 // childSource is the text of template t(i+1): extends t(i) and redefines the given blocks.
-func childSource(i int, ch []Override) string {
+func childSource(i int, ch []Override) string { return extendsSource(tplName(i), ch) }
+
+func extendsSource(parent string, ch []Override) string {
 	var sb strings.Builder
-	sb.WriteString(`{{extends "` + tplName(i) + `"}}`)
+	sb.WriteString(`{{extends "` + parent + `"}}`)
 	for _, o := range ch {
 		sb.WriteString("\n")
 		sb.WriteString(serialise([]Node{{K: KBlock, S: o.Name, A: o.Body}}))
@@ -267,7 +382,8 @@ type frame struct {
 }
 
 type interp struct {
-	c *Case
+	c    *Case
+	path [][]Override // override sets of the template being rendered, base side first
 	// observations about the evaluation, used for labels and for the known-finding triggers
 	elseTaken     bool // some else branch was selected
 	elseTakenLoop bool // ... inside a loop
@@ -285,8 +401,8 @@ type interp struct {
 }
 
 func (ip *interp) blockBody(name string, def []Node) []Node {
-	for i := len(ip.c.Children) - 1; i >= 0; i-- {
-		for _, o := range ip.c.Children[i] {
+	for i := len(ip.path) - 1; i >= 0; i-- {
+		for _, o := range ip.path[i] {
 			if o.Name == name {
 				return o.Body
 			}
@@ -417,10 +533,22 @@ func (ip *interp) render(ns []Node, fr []frame) string {
 	return sb.String()
 }
 
-// expected returns the reference text of the case and the interpreter with its observations.
-func expected(c *Case) (string, *interp) {
+// expectedAll returns the reference text of every render of the case (renderList order) and the interpreter with
+// its observations over all of them.
+func expectedAll(c *Case) ([]string, *interp) {
 	ip := &interp{c: c}
-	return ip.render(c.Base, nil), ip
+	var out []string
+	for _, k := range c.renderList() {
+		ip.path = c.path(k)
+		out = append(out, ip.render(c.Base, nil))
+	}
+	return out, ip
+}
+
+// expected returns the reference text of the final render and the interpreter with its observations (all renders).
+func expected(c *Case) (string, *interp) {
+	all, ip := expectedAll(c)
+	return all[len(all)-1], ip
 }
 
 // ---------------------------------------------------------------------------------------------
@@ -446,6 +574,11 @@ func (c *Case) walk(f func(n Node, loopDepth int, inIf bool)) {
 	rec(c.Base, 0, false)
 	for _, ch := range c.Children {
 		for _, o := range ch {
+			rec(o.Body, 0, false)
+		}
+	}
+	for _, sb := range c.Sibs {
+		for _, o := range sb.Ov {
 			rec(o.Body, 0, false)
 		}
 	}
